@@ -922,6 +922,29 @@ func genC01(g *G) {
 		}
 		g.Case(ops)
 	}
+	// "look up the successor, remove the two-child node above it, replace the successor" (round-7 seeds: a lookup
+	// hint that goes stale when popMinRight detaches the successor node): keys ordered by k/10 so that a replaced
+	// representative is visible; the pattern at three alignments w.r.t. the blind re-execution's schedule
+	for i := 0; i < g.Scale(30, 200); i++ {
+		n := 5 + g.Intn(8)
+		ks := make([]string, n)
+		for j := range ks {
+			ks[j] = fmt.Sprint(20 + 10*j)
+		}
+		for pad := 0; pad < 3; pad++ {
+			ops := []string{"reset div10", fmt.Sprintf("new 0 %d %s", []int{0, 250, 1000}[g.Intn(3)], strings.Join(ks, " "))}
+			for p := 0; p < pad; p++ {
+				ops = append(ops, "remove 0 5") // absent: nothing happens
+			}
+			for round := 0; round < 3; round++ {
+				j := g.Intn(n - 1)
+				p, sUcc := 20+10*j, 30+10*j
+				ops = append(ops, fmt.Sprintf("add 0 %d", sUcc), fmt.Sprintf("remove 0 %d", p),
+					fmt.Sprintf("replace 0 %d", sUcc+1+g.Intn(8)), fmt.Sprintf("add 0 %d", p))
+			}
+			g.Case(ops)
+		}
+	}
 	cases := g.Scale(200, 700)
 	for i := 0; i < cases; i++ {
 		g.Case(genC01History(g, g.Scale(300, 1200)))
